@@ -217,6 +217,50 @@ def run_modes(case, r):
             env.safe_close(f)
     env.rm(missing)
     r.outcomes.add("modes")
+    # pre-existing files that are not NIX files: empty, not HDF5 at all, HDF5 without a NIX header
+    for kind in ("zero-length", "not-hdf5", "hdf5-without-nix-header", "hdf5-other-format-tag"):
+        for mode, label in ((nix.FileMode.ReadOnly, "ro"), (nix.FileMode.ReadWrite, "rw"), (nix.FileMode.Overwrite, "w")):
+            p = env.fresh_path("c11foreign_")
+            if kind == "zero-length":
+                open(p, "wb").close()
+            elif kind == "not-hdf5":
+                with open(p, "wb") as fh:
+                    fh.write(b"this is not an hdf5 file\n" * 40)
+            else:
+                with h5py.File(p, "w") as h:
+                    h.create_group("payload").attrs["keep"] = 1
+                    if kind == "hdf5-other-format-tag":
+                        h.attrs["format"] = "odml"
+                        h.attrs["version"] = np.array(LIBVER, dtype=np.int32)
+                        h.attrs["id"] = VALID_ID
+            h0 = sha(p)
+            r.evals += 1
+            r.nontrivial += 1
+            try:
+                f = nix.File.open(p, mode)
+                exc = None
+            except Exception as e:  # noqa
+                f, exc = None, e
+            r.outcomes.add("foreign:%s:%s:%s" % (kind, label, "opened" if exc is None else type(exc).__name__))
+            try:
+                if label == "w":
+                    if exc is not None or len(f.blocks) or len(f.sections) or tuple(f.version) != LIBVER:
+                        r.viol("C11|foreign-file|%s|w|not-a-fresh-file" % kind, "Overwrite of a %s file: %r" % (kind, exc), {})
+                else:
+                    if exc is None:
+                        r.viol("C11|foreign-file|%s|%s|opened" % (kind, label),
+                               "a pre-existing %s file was opened %s as a NIX file (File.mode=%r)" % (kind, label, f.mode), {})
+            finally:
+                if f is not None:
+                    env.safe_close(f)
+            # read-only never changes a byte.  (A refused read-write open is not asserted byte-identical: HDF5
+            # itself rewrites superblock / free-space bookkeeping when a file is opened with write intent, and
+            # initialises a zero-length file, before the NIX header check can refuse it.)
+            if label == "ro" and (not os.path.exists(p) or sha(p) != h0):
+                r.viol("C11|foreign-file|%s|%s|bytes-changed" % (kind, label),
+                       "opening a pre-existing %s file %s changed its bytes (size now %s)" % (
+                           kind, label, os.path.getsize(p) if os.path.exists(p) else None), {})
+            env.rm(p)
 
 
 def run_ro_ops(case, r):
